@@ -413,6 +413,20 @@ func ruleNoFlagDropped(w *World, r *RuleResult) {
 					if !call.Block().Dominates(b) {
 						continue // the return is also reachable without the call: its φ decides (not handled)
 					}
+					if _, isConst := condBits(rt.Results[fi]); isConst {
+						continue // a literal flag set replaces the flags on purpose (Quantize's InvalidOperation)
+					}
+					if gc, isCall := rt.Results[fi].(*ssa.Extract); isCall {
+						if cc, ok := gc.Tuple.(*ssa.Call); ok && w.isGoErrorCall(cc) {
+							flagsArg := cc.Common().Args[len(cc.Common().Args)-1]
+							if w.calleeName(cc) == "(Condition).GoError" {
+								flagsArg = cc.Common().Args[0]
+							}
+							if _, isConst := condBits(flagsArg); isConst {
+								continue // goError(<literal>)
+							}
+						}
+					}
 					found := false
 					w.exprOf(f, rt.Results[fi]).walk(func(x *Expr) bool {
 						if x.V == val || x.V == ssa.Value(call) {
